@@ -732,7 +732,27 @@ class _Run(object):
 
     # ---- helpers -----------------------------------------------------------------------------------
     def disc(self, bucket, msg, kf=None):
-        self.ctx.disc(bucket, msg, self.case, kf=kf)
+        self.ctx.disc(bucket, msg, getattr(self, 'case0', self.case), kf=kf)
+
+    def switch_network(self, op):
+        """The same cache database is used by a Service of ANOTHER network (one cache for all networks is the
+        library's default). Its providers answer from that network's own chain; nothing has been stored for it yet, so
+        the model of legitimate cache content starts empty again: whatever the first network left in the cache is not
+        an answer for this one."""
+        c2 = dict(self.case, net=op['net'], salt=op['salt'])
+        if not hasattr(self, 'case0'):
+            self.case0 = self.case
+        self.case = c2
+        _write_providers(c2)
+        _ST.case = c2
+        _ST.U = _universe(c2['net'], c2['salt'])
+        self.m_fee, self.m_fee_fb, self.m_bc = {}, {}, []
+        self.m_tx, self.m_bal, self.m_addr_known, self.lied_empty = set(), {}, set(), set()
+        self.m_blk = False
+        self.m_bc_failed = None
+        self.nt = True
+        self.ctx.klass('second_network_on_same_cache')
+        return self.open()
 
     def observe(self, fn):
         SE = self.L['ServiceError']
@@ -1450,6 +1470,9 @@ class _Run(object):
                         break
                 elif k == 'q':
                     self.query(op)
+                elif k == 'net':
+                    if not self.switch_network(op):
+                        break
                 else:
                     raise HarnessError('unknown op %r' % k)
         finally:
@@ -1644,6 +1667,22 @@ def cache_scenarios(ctx):
                 for reopen in tf:
                     out.append((['gettransactions', 'getbalance'], head + [q('getbalance', addrs=lst)] +
                                 mid(0, False, reopen) + tail))
+    # two networks on one cache database: what the first left there (block by height, transactions, block count, fee)
+    # is no answer for the second
+    for parse in tf:
+        for byhash in tf:
+            for first in ([q('getblock', parse=parse, byhash=False, limit=10)],
+                          [q('getblock', parse=parse, byhash=False, limit=10), q('gettransaction', tx=1),
+                           q('estimatefee', blocks=3), q('blockcount')]):
+                for same_salt in tf:
+                    if same_salt and byhash:
+                        # (the simulated chains of one salt share their block hashes, real networks never do: a block
+                        # found by HASH in the other network's rows would be an artefact of the simulation)
+                        continue
+                    out.append((['getblock'], first + [{'op': 'net', 'net': None, 'same_salt': same_salt},
+                                                        q('getblock', parse=parse, byhash=byhash, limit=10),
+                                                        q('gettransaction', tx=1), q('estimatefee', blocks=3),
+                                                        q('blockcount')], 'file' if same_salt else True))
     # fee estimate while every provider is down (documented default), then again when they are back
     for blocks in (1, 3, 25):
         for dt in (1, 599, 601):
@@ -1662,6 +1701,9 @@ def cache_scenarios(ctx):
             beh = item[3]
         elif n % 3 == 0:
             beh = {m: [['client_error', 'ok'], ['ok']] for m in methods}
+        # (the second network of a 'net' step: the next one in the list, with the same or another chain)
+        ops = [dict(o, net=NETS[(n + 1) % 3], salt=(n % 5) if o.get('same_salt') else (n + 2) % 5)
+               if o.get('op') == 'net' else o for o in ops]
         yield n, {'kind': 'plan', 'net': NETS[n % 3], 'k': 2, 'prio': [2, 1] if n % 2 else [1, 1], 'minp': 1,
                   'maxp': 1 + (n % 5 == 0), 'max_errors': item[4] if len(item) > 4 else 4, 'cache': cache, 'rseed': n, 'salt': n % 5, 'beh': beh,
                   'ops': ops}
